@@ -52,6 +52,10 @@ FlatRecs(bs) ==
 \* missing; those present are in order, and everything processed earlier is intact.
 \* (Generated only for configurations in which a backup created during the step cannot itself
 \* be outdated: maxBackups = 0 or >= the number of writes.)
+\* The relation does not depend on the length of ids: a "flood" (RotateLogGen!GFloods) is a burst
+\* of one producer that is several times longer than the writer's queue, so that Write finds the
+\* queue full; the order of acceptance is the order of ids.  burst-content is the exact claim
+\* (present, complete, once, in order); burst-order is added when only the order is wrong.
 BurstFailed(c, cur, bks, ids, all, cur2, cb2, clast, bks2) ==
   LET B       == Range(bks)
       B2      == Range(bks2)
@@ -60,9 +64,16 @@ BurstFailed(c, cur, bks, ids, all, cur2, cb2, clast, bks2) ==
       kept    == {b \in B2 : b.ts \in oldTs}
       removed == {b \in B : b.ts \notin {x.ts : x \in B2}}
       R       == FlatRecs(fresh) \o cur2
-      W       == IF all THEN ids ELSE SelectSeq(ids, LAMBDA x : x \in Range(R))
+      RS      == Range(R)                          \* (named: TLC then builds the set once, not once per id)
+      W       == IF all THEN ids ELSE SelectSeq(ids, LAMBDA x : x \in RS)
       sized   == c.rule = "size" /\ c.maxSize > 0
-  IN  (IF R = cur \o W THEN {} ELSE {"burst-content"})
+      E       == cur \o W                          \* what the new files must hold, in this order
+      perm    == /\ Len(R) = Len(E) /\ Range(R) = Range(E)
+                 /\ Cardinality(Range(R)) = Len(R) /\ Cardinality(Range(E)) = Len(E)
+  IN  (IF R = E THEN {} ELSE {"burst-content"})
+      \* every record is there, complete and once, but not in the order in which Write accepted them
+      \* (a burst may be longer than the writer's queue: the producer then finds the queue full)
+      \cup (IF R # E /\ perm THEN {"burst-order"} ELSE {})
       \cup (IF c.gzip => \A b \in Range(fresh) : b.gz THEN {} ELSE {"compression"})
       \cup (IF \A b2 \in kept : \E b \in B : b.ts = b2.ts /\ b.recs = b2.recs THEN {} ELSE {"backup-changed"})
       \cup (IF removed \subseteq Outdated(c, B \cup Range(fresh)) THEN {} ELSE {"removed-not-outdated"})
